@@ -831,4 +831,29 @@ def runEffH (allRules : List RuleRow) (lint : Bool) (eff : EffConfig) (excludeIm
     Except RErr (List FileAnnot) :=
   runEff allRules lint eff excludeImports (handlerView lint img)
 
+/-! ## the accepted-key table (configuration-key family)
+
+    `newRulesConfig` validates every entry of `use`, `except` and every key of `ignore_only`
+    against two Go maps built from the rules OF THE REQUESTED TYPE only
+    (`allRulesForType`): `ruleIDToCategoryIDs` (keys = rule ids, deprecated ones included) and
+    `categoryIDToRuleIDs` (keys = the categories carried by at least one such rule).  The maps
+    built from the rules of all types (`allRuleIDToCategoryIDs` …) are only consulted for the
+    `use` lists of the related check configs (unused-plugin warning). -/
+
+/-- The keys of `ruleIDToCategoryIDs`. -/
+def ruleIdsOf (rs : List RuleRow) : List Id := rs.map (·.id)
+
+/-- The keys of `categoryIDToRuleIDs`. -/
+def categoryIdsOf (rs : List RuleRow) : List Id := rs.flatMap (·.categories)
+
+/-- Every id `use` / `except` / `ignore_only` accept (for the table of one rule type). -/
+def acceptedKeys (rs : List RuleRow) : List Id := ruleIdsOf rs ++ categoryIdsOf rs
+
+/-- `Client.ConfiguredRules` on a configuration that came out of a buf.yaml (`ykeys` lines). -/
+def configuredEff (allRules : List RuleRow) (lint : Bool) (eff : EffConfig) : Except RErr (List Id) :=
+  let all := if eff.check.disableBuiltin then [] else allRules
+  match newRulesConfig all lint eff.check with
+  | .error e => .error e
+  | .ok rc => .ok (configuredRuleIds all rc.ruleIDs)
+
 end BufModel.Rules
